@@ -119,4 +119,44 @@ example : Dom (10 * 2 ^ 40) (2 ^ 32 - 1) := ⟨by decide, by decide, by decide, 
   simp [TV.Geo.chunkTotal]⟩
 example : total 10 4 = 3 ∧ len 10 4 2 = 2 ∧ off 4 2 = 8 := by decide
 
+
+/-! ## stream ids of several connections are kept apart (`multiConn`) -/
+
+open TV.GoInt in
+/-- the regenerated `makeVirtualStreamID` is `connIndex * 2^56 + streamID` for the (at most 255) connections
+`NewMultiConn` accepts and QUIC stream ids below 2^56 -/
+theorem C19_virtual_id (c s : Nat) (hc : c < 256) (hs : s < 2 ^ 56) :
+    TV.Gen.makeVirtualStreamID (c : Int) (s : Int) = ((c * 2 ^ 56 + s : Nat) : Int) := by
+  unfold TV.Gen.makeVirtualStreamID
+  simp only
+  have h64 : ((2:Int)^64) = ((2 ^ 64 : Nat) : Int) := by norm_cast
+  have h1 : wrapU 64 (c : Int) = (c : Int) := wrapU_id (by omega) (by
+    rw [h64]; exact_mod_cast (Nat.lt_trans hc (by decide : 256 < 2 ^ 64)))
+  rw [h1]
+  have h2 : goShl (c : Int) 56 = ((c * 2 ^ 56 : Nat) : Int) := by
+    unfold goShl; simp
+  rw [h2]
+  have hlt : c * 2 ^ 56 < 2 ^ 64 := by
+    have : (2:Nat) ^ 64 = 256 * 2 ^ 56 := by decide
+    rw [this]; exact Nat.mul_lt_mul_of_pos_right hc (by decide)
+  have h3 : wrapU 64 ((c * 2 ^ 56 : Nat) : Int) = ((c * 2 ^ 56 : Nat) : Int) :=
+    wrapU_id (by omega) (by rw [h64]; exact_mod_cast hlt)
+  rw [h3]
+  unfold goAnd goOr
+  have hm : (72057594037927935 : Int).toNat = 2 ^ 56 - 1 := by decide
+  simp only [Int.toNat_natCast, hm, Nat.and_two_pow_sub_one_eq_mod, Nat.mod_eq_of_lt hs]
+  congr 1
+  rw [← Nat.shiftLeft_eq, ← Nat.shiftLeft_add_eq_or_of_lt hs]
+
+/-- two streams get the same virtual id only if they are the same stream of the same connection: files keyed by
+virtual stream ids never collide across connections -/
+theorem C19_virtual_id_injective (c c' s s' : Nat) (hc : c < 256) (hc' : c' < 256) (hs : s < 2 ^ 56) (hs' : s' < 2 ^ 56)
+    (h : TV.Gen.makeVirtualStreamID (c : Int) (s : Int) = TV.Gen.makeVirtualStreamID (c' : Int) (s' : Int)) :
+    c = c' ∧ s = s' := by
+  rw [C19_virtual_id c s hc hs, C19_virtual_id c' s' hc' hs'] at h
+  have h' : c * 2 ^ 56 + s = c' * 2 ^ 56 + s' := by exact_mod_cast h
+  have hp : (2:Nat) ^ 56 = 72057594037927936 := by decide
+  rw [hp] at h' hs hs'
+  omega
+
 end TV.C19
